@@ -7,6 +7,7 @@ import (
 	"encoding/json"
 	"errors"
 	"fmt"
+	"io"
 	"strings"
 	"time"
 
@@ -64,10 +65,13 @@ type C08Sc struct {
 	TLS bool `json:"tls,omitempty"`
 	// RouteDiscover: the application routes Discover Versions itself; its handler may fail or panic like any other
 	RouteDiscover bool `json:"route_discover,omitempty"`
+	// DebugMw: the library's own server-side DebugMiddleware is installed on the executor (1 default marshaller,
+	// 2 a JSON marshaller): it sees every request and response, also the rejected ones
+	DebugMw int `json:"debug_mw,omitempty"`
 }
 
 var c08Outcomes = []string{"ok", "ok", "ok", "et", "ep", "pe", "ps", "pS", "pi", "pn", "y2,ok", "sl300,ok", "sL300,ok", "sl5000,ok", "sL5000,ok", "y3,et",
-	"pk", "pK", "pm", "sl2000,ps", "sl5000,pn", "sL300,pe", "sl3000,cx,pk", "y2,pm", "nn", "y1,nn"}
+	"pk", "pK", "pm", "sl2000,ps", "sl5000,pn", "sL300,pe", "sl3000,cx,pk", "y2,pm", "nn", "y1,nn", "eL", "eW", "y1,eL"}
 
 func genSrvReq(g *simrt.Tape) *ReqSc {
 	rs := &ReqSc{Version: g.Draw(5), Option: g.Draw(3), Hdr: genHdr(g), IDs: genIDs(g)}
@@ -190,6 +194,9 @@ func genC08(g *simrt.Tape, tier string) any {
 				routedDiscovery(sc.HTTP[i].Req)
 			}
 		}
+	}
+	if g.Draw(4) == 0 {
+		sc.DebugMw = 1 + g.Draw(2)
 	}
 	if g.Draw(4) == 0 {
 		sc.TLS = true
@@ -563,6 +570,12 @@ func execC08(x *X, scAny any) {
 		}
 	}
 	w.tls = sc.TLS
+	switch sc.DebugMw {
+	case 1:
+		w.exec.Use(kmipserver.DebugMiddleware(io.Discard, nil))
+	case 2:
+		w.exec.Use(kmipserver.DebugMiddleware(io.Discard, ttlv.MarshalJSON))
+	}
 	if sc.RouteDiscover {
 		w.routeDiscover()
 	}
@@ -769,6 +782,16 @@ func c08FaultFloor(tier string) []*C08Sc {
 			sc.TLS, sc.StalledShutdown = true, stalled
 			sc.Clients = append([]RawClientSc{{Hello: hello, Acts: sc.Clients[0].Acts}}, sc.Clients...)
 			sc.Clients = append(sc.Clients, RawClientSc{Hello: hello, Acts: sc.Clients[1].Acts})
+			out = append(out, sc)
+		}
+	}
+	// the library's DebugMiddleware in front of requests that are rejected as a whole (unsupported version, count
+	// mismatch, Undo), each followed by ordinary requests on the same and on another connection
+	for dm := 1; dm <= 2; dm++ {
+		for _, bad := range []*ReqSc{{Version: 5, Items: []ItemSc{{Tok: "ok"}}}, {Version: 4, CountDelta: 1, Items: []ItemSc{{Tok: "ok"}}}, {Version: 4, Option: 3, Items: []ItemSc{{Tok: "ok"}, {Tok: "ok"}}}} {
+			sc := c08BaseWorkload()
+			sc.DebugMw = dm
+			sc.Clients[0].Acts = append([]ActSc{{Kind: "send", Req: bad}, {Kind: "read"}}, sc.Clients[0].Acts...)
 			out = append(out, sc)
 		}
 	}
